@@ -44,7 +44,11 @@ func runC06(e *Env) {
 	e.S.Floor("C06.parse", 18)
 	// "for any two valid versions": valid is the SemVer grammar, which the helpers' parser must accept in full
 	e.As(map[string]string{"C03.lang": "C06.lang", "C03.num": "C06.lang", "C03.valid": "C06.lang"}, func() { ruleC03Lang(e) })
-	e.S.Floor("C06.lang", 2)
+	// … and the compared fields are the captures of that pattern laid out as the grammar lays them out: nothing matched
+	// lies outside the five captures and the literals between them (a group that swallowed "0." in front of the
+	// pre-release would change what is compared without changing the language)
+	e.skeleton("C06.lang", "sem", "pattern", "^<1>.<2>.<3>[-<4>][+<5>]$")
+	e.S.Floor("C06.lang", 3)
 	e.S.Floor("C06.latest", 3)
 	e.S.Floor("C06.core", 28)
 	e.S.Floor("C06.empty", 6)
@@ -84,51 +88,76 @@ func ruleC06Core(e *Env, rule string) {
 	for a := -1; a <= 1; a++ {
 		for b := -1; b <= 1; b++ {
 			for c := -1; c <= 1; c++ {
-				construct := fmt.Sprintf("Major%s Minor%s Patch%s", ordSym(a), ordSym(b), ordSym(c))
-				o := &ordOracle{ord: map[string]int{"v.Major|ver.Major": a, "v.Minor|ver.Minor": b, "v.Patch|ver.Patch": c}}
-				ev := &pred.Evaluator{Prog: e.P.SSA, GlobalInit: e.globalTables(), Oracle: o}
-				out, err := ev.Eval(cmp, []pred.Val{symStruct(verT, "v"), symStruct(verT, "ver")})
-				if err != nil {
-					e.S.Unk(rule, site, construct, "not decidable by field-order abstraction: "+err.Error(), e.Pos(cmp))
-					continue
-				}
-				side := true
-				for _, q := range ev.Asked {
-					okAsk := false
-					for _, f := range fields {
-						if strings.HasPrefix(q, "v."+f+" ") && strings.HasSuffix(q, " ver."+f) || strings.HasPrefix(q, "ver."+f+" ") && strings.HasSuffix(q, " v."+f) {
-							okAsk = true
+				// the pre-release / build texts equal or different: asked only by a fast path (v.PreRelease == ver.PreRelease,
+				// v == ver); world 0 has both equal and shows which of the two are asked at all
+				seenPre, seenBuild := false, false
+				for world := 0; world < 4; world++ {
+					pre, bw := world&1, world>>1
+					if pre == 1 && !seenPre || bw == 1 && !seenBuild {
+						continue // the same run as with equal texts
+					}
+					construct := fmt.Sprintf("Major%s Minor%s Patch%s", ordSym(a), ordSym(b), ordSym(c))
+					o := &ordOracle{ord: map[string]int{"v.Major|ver.Major": a, "v.Minor|ver.Minor": b, "v.Patch|ver.Patch": c, "v.PreRelease|ver.PreRelease": pre, "v.Build|ver.Build": bw}}
+					ev := &pred.Evaluator{Prog: e.P.SSA, GlobalInit: e.globalTables(), Oracle: o}
+					out, err := ev.Eval(cmp, []pred.Val{symStruct(verT, "v"), symStruct(verT, "ver")})
+					if err != nil {
+						e.S.Unk(rule, site, construct, "not decidable by field-order abstraction: "+err.Error(), e.Pos(cmp))
+						break
+					}
+					side := true
+					askedPre, askedBuild := false, false
+					for _, q := range ev.Asked {
+						okAsk := false
+						if q == "v.PreRelease == ver.PreRelease" || q == "ver.PreRelease == v.PreRelease" || q == "v.PreRelease != ver.PreRelease" || q == "ver.PreRelease != v.PreRelease" {
+							okAsk, askedPre, seenPre = true, true, true
+						}
+						if q == "v.Build == ver.Build" || q == "ver.Build == v.Build" || q == "v.Build != ver.Build" || q == "ver.Build != v.Build" {
+							okAsk, askedBuild, seenBuild = true, true, true
+						}
+						for _, f := range fields {
+							if strings.HasPrefix(q, "v."+f+" ") && strings.HasSuffix(q, " ver."+f) || strings.HasPrefix(q, "ver."+f+" ") && strings.HasSuffix(q, " v."+f) {
+								okAsk = true
+							}
+						}
+						if !okAsk {
+							side = false
+							e.S.Unk(rule, site, construct, "side condition broken: Compare asks "+q+", not a same-field comparison of the core", e.Pos(cmp))
 						}
 					}
-					if !okAsk {
-						side = false
-						e.S.Unk(rule, site, construct, "side condition broken: Compare asks "+q+", not a same-field comparison of the core", e.Pos(cmp))
+					if !side {
+						break
 					}
-				}
-				if !side {
-					continue
-				}
-				lex := a
-				if lex == 0 {
-					lex = b
-				}
-				if lex == 0 {
-					lex = c
-				}
-				if lex != 0 {
-					k, ok := intOf(out.Ret)
-					if !ok || int(k) != lex {
-						e.S.Bad(rule, site, construct, fmt.Sprintf("receiver vs argument with %s: Compare returns %v, numeric precedence demands %d", construct, out.Ret, lex), e.Pos(cmp), construct)
+					if askedPre || seenPre {
+						construct += map[int]string{0: " PreRelease=", 1: " PreRelease≠"}[pre]
+					}
+					if askedBuild || seenBuild {
+						construct += map[int]string{0: " Build=", 1: " Build≠"}[bw]
+					}
+					lex := a
+					if lex == 0 {
+						lex = b
+					}
+					if lex == 0 {
+						lex = c
+					}
+					if lex != 0 {
+						k, ok := intOf(out.Ret)
+						if !ok || int(k) != lex {
+							e.S.Bad(rule, site, construct, fmt.Sprintf("receiver vs argument with %s: Compare returns %v, numeric precedence demands %d", construct, out.Ret, lex), e.Pos(cmp), construct)
+						} else {
+							e.S.Ok(rule, site, construct, fmt.Sprintf("Compare = %d", lex), e.Pos(cmp))
+						}
+						continue
+					}
+					want := "dyn:*sem.ComparePreRelease(v.PreRelease,ver.PreRelease)"
+					if askedPre && pre == 0 && out.Ret.String() == "0" {
+						// the property's own clause: equal core and equal pre-release compare as 0
+						e.S.Ok(rule, site, construct, "equal core and equal pre-release text ⇒ 0", e.Pos(cmp))
+					} else if out.Ret.String() != want {
+						e.S.Bad(rule, site, construct, fmt.Sprintf("for equal cores Compare returns %v; documented: ComparePreRelease(receiver.PreRelease, argument.PreRelease)", out.Ret), e.Pos(cmp), "")
 					} else {
-						e.S.Ok(rule, site, construct, fmt.Sprintf("Compare = %d", lex), e.Pos(cmp))
+						e.S.Ok(rule, site, construct, "equal core ⇒ ComparePreRelease(v.PreRelease, ver.PreRelease)", e.Pos(cmp))
 					}
-					continue
-				}
-				want := "dyn:*sem.ComparePreRelease(v.PreRelease,ver.PreRelease)"
-				if out.Ret.String() != want {
-					e.S.Bad(rule, site, construct, fmt.Sprintf("for equal cores Compare returns %v; documented: ComparePreRelease(receiver.PreRelease, argument.PreRelease)", out.Ret), e.Pos(cmp), "")
-				} else {
-					e.S.Ok(rule, site, construct, "equal core ⇒ ComparePreRelease(v.PreRelease, ver.PreRelease)", e.Pos(cmp))
 				}
 			}
 		}
@@ -369,7 +398,7 @@ func ruleC06Entry(e *Env, rule string) {
 		if okErr {
 			var stray []string
 			for _, r := range flow.Returns(fn) {
-				if len(r.Results) != 2 || flow.IsNilConst(r.Results[1]) {
+				if len(r.Results) != 2 || knownNilAt(r.Results[1], r.Block()) {
 					continue
 				}
 				behind := false
@@ -416,7 +445,7 @@ func ruleC06Entry(e *Env, rule string) {
 		// and the method's result is what is returned with a nil error
 		ret := false
 		for _, r := range flow.Returns(fn) {
-			if len(r.Results) == 2 && r.Results[0] == ssa.Value(mcall) && flow.IsNilConst(r.Results[1]) {
+			if len(r.Results) == 2 && r.Results[0] == ssa.Value(mcall) && knownNilAt(r.Results[1], r.Block()) {
 				ret = true
 			}
 		}
